@@ -183,6 +183,9 @@ type c20Spec struct {
 	// reuse: the bounds are written into the very slice the previous creation of this kind and length handed over
 	// (an application that builds its bucket sets in one scratch slice), and that slice is passed again
 	reuse bool
+	// shared: the bounds are a prefix (n > 0: the first n) or the whole (n < 0) of ONE array {1,2,3,4} / {1ns,..,4ns} that
+	// the application keeps for the run: a sorted prefix has spare capacity that belongs to the rest of the array
+	shared int
 }
 
 func c20Specs() []c20Spec {
@@ -190,6 +193,10 @@ func c20Specs() []c20Spec {
 	return []c20Spec{
 		{name: "V{1,4}", v: []float64{1, 4}},
 		{name: "V{4,1}", v: []float64{4, 1}},
+		{name: "V{1,2} the first two of a shared array {1,2,3,4}", v: []float64{1, 2}, shared: 2},
+		{name: "V{1,2,3,4} the whole shared array", v: []float64{1, 2, 3, 4}, shared: -1},
+		{name: "D{1,2} the first two of a shared array {1,2,3,4}", d: []time.Duration{1, 2}, dur: true, shared: 2},
+		{name: "D{1,2,3,4} the whole shared array", d: []time.Duration{1, 2, 3, 4}, dur: true, shared: -1},
 		{name: "V{0.5,8}", v: []float64{0.5, 8}},
 		{name: "V{2,2}", v: []float64{2, 2}},
 		{name: "V{1,2,2}", v: []float64{1, 2, 2}},
@@ -235,6 +242,7 @@ func c20Jobs(tier string) []*SeqJob {
 		total := 0
 		var lastV []float64
 		var lastD []time.Duration
+		sharedV, sharedD := []float64{1, 2, 3, 4}, []time.Duration{1, 2, 3, 4}
 		for i, k := range seq {
 			sp := specs[k]
 			if i%2 == 1 {
@@ -257,6 +265,18 @@ func c20Jobs(tier string) []*SeqJob {
 				cl, det, st = checkDurationHistogramOn(&env, e.root, name, nil, []time.Duration{5, 1})
 			case sp.nil_:
 				cl, det, st = checkDurationHistogramOn(&env, e.root, name, nil, builtin)
+			case sp.dur && sp.shared != 0:
+				arg := sharedD
+				if sp.shared > 0 {
+					arg = sharedD[:sp.shared]
+				}
+				cl, det, st = checkDurationHistogramOn(&env, e.root, name, tally.DurationBuckets(arg), sp.d)
+			case sp.shared != 0:
+				arg := sharedV
+				if sp.shared > 0 {
+					arg = sharedV[:sp.shared]
+				}
+				cl, det, st = checkValueHistogramOn(&env, e.root, name, tally.ValueBuckets(arg), sp.v)
 			case sp.dur:
 				arg := append([]time.Duration{}, sp.d...)
 				if sp.reuse && len(lastD) == len(sp.d) {
@@ -461,13 +481,20 @@ func c20BucketPairsJob(tier string) *SeqJob {
 			for i, k := range idx {
 				spec[i] = va[k]
 			}
-			arg := tally.ValueBuckets(append([]float64{}, spec...))
+			// (the slice handed over has spare capacity that belongs to the caller: two more elements behind its end)
+			backing := make([]float64, len(spec)+2)
+			copy(backing, spec)
+			backing[len(spec)], backing[len(spec)+1] = 777, 778
+			arg := tally.ValueBuckets(backing[:len(spec)])
 			for call := 0; call < 2; call++ {
 				pairs := tally.BucketPairs(arg)
 				for i := range spec {
 					if math.Float64bits(arg[i]) != math.Float64bits(spec[i]) {
 						return "caller-slice-modified", fmt.Sprintf("BucketPairs changed the slice it was given: %v -> %v", spec, []float64(arg))
 					}
+				}
+				if backing[len(spec)] != 777 || backing[len(spec)+1] != 778 {
+					return "caller-slice-modified", fmt.Sprintf("BucketPairs wrote behind the end of the slice it was given (into its spare capacity): %v", backing)
 				}
 				var lo, hi []float64
 				for _, p := range pairs {
@@ -483,13 +510,19 @@ func c20BucketPairsJob(tier string) *SeqJob {
 		for i, k := range idx {
 			spec[i] = da[k]
 		}
-		arg := tally.DurationBuckets(append([]time.Duration{}, spec...))
+		backing := make([]time.Duration, len(spec)+2)
+		copy(backing, spec)
+		backing[len(spec)], backing[len(spec)+1] = 777, 778
+		arg := tally.DurationBuckets(backing[:len(spec)])
 		for call := 0; call < 2; call++ {
 			pairs := tally.BucketPairs(arg)
 			for i := range spec {
 				if arg[i] != spec[i] {
 					return "caller-slice-modified", fmt.Sprintf("BucketPairs changed the slice it was given: %v -> %v", spec, []time.Duration(arg))
 				}
+			}
+			if backing[len(spec)] != 777 || backing[len(spec)+1] != 778 {
+				return "caller-slice-modified", fmt.Sprintf("BucketPairs wrote behind the end of the slice it was given (into its spare capacity): %v", backing)
 			}
 			var lo, hi []time.Duration
 			for _, p := range pairs {
